@@ -207,6 +207,12 @@ def main():
     counts, miss = gen_c04_tables.generate(REPO)
     vals.update(counts)      # SUBSTREAM_ERRORKINDS_MASK, EK_*, ...
     missing += list(miss)
+    # C13: enums, match arms, select! order and configuration of the request-response protocol
+    # -> coq/gen/C13Tables.v (sibling script)
+    import gen_c13_tables
+    counts, miss = gen_c13_tables.generate(REPO)
+    vals.update(counts)      # C13_SELECT_ARMS, C13_ERROR_VARIANTS
+    missing += list(miss)
     str_names = []
     for name, path, rx in STR_CONSTS:
         try:
